@@ -1065,6 +1065,14 @@ func (env *Env) callExpr(e *Expr, pol int) Value {
 	case "allocated":
 		x := env.compile(e.Args[0], 0)
 		return boolVal(And(Gt(x.C[0], IntLit(0)), Le(x.C[0], env.st.wm)))
+	case "visited":
+		// visited(k): the enclosing map range loop has already produced key k (loop invariants of `for k, v := range m`)
+		if env.fr == nil || env.fr.curLoop == nil || env.fr.curLoop.mapRange == nil {
+			cfail("%s: visited() is only meaningful in the invariants of a range loop over a map", e)
+		}
+		k := env.compile(e.Args[0], 0)
+		vk, vsrt := visitedKey(env.fr.curLoop.mapRange)
+		return boolVal(Select(env.st.heap.Get(vk, vsrt), k.one()))
 	case "has":
 		m := env.compile(e.Args[0], 0)
 		k := env.compile(e.Args[1], 0)
